@@ -3,6 +3,7 @@ module github.com/buzzfeed/sso/verifharness
 go 1.14
 
 require (
+	github.com/18F/hmacauth v0.0.0-20151013130326-9232a6386b73
 	github.com/anishathalye/porcupine v1.3.0
 	github.com/benbjohnson/clock v0.0.0-20161215174838-7dc76406b6d3
 	github.com/buzzfeed/sso v0.0.0
